@@ -72,6 +72,7 @@ def run_config(prop, cfg, tier, seed):
             res['nonfinite_classes'] = res.get('nonfinite_classes', 0) + 1; return
         for cond, label in rec.checks:
             res['checks'] += 1
+            if rec.pc: res['nontrivial'] += 1   # decided on a solver-constructed path class
             if not cond:
                 res['problems'].append({'kind': 'check', 'label': label, 'inputs': rec.inputs(), 'path': k})
         seen_labels = {}
